@@ -219,6 +219,76 @@ theorem view_eq_of {β γ : Type} (n : Net β) (m : Net γ) (hd : n.directed = m
   unfold Net.view
   simp only [hd, hL, hV, ho, hi, hu, hv]
 
+/-! ### vertex indices are in range (C16: no out-of-bounds vertex index) -/
+
+section build
+variable {β ω : Type} [DecidableEq β] [Weight ω]
+
+theorem mem_zip_interleave {s e : List β} {p : β × β} (hp : p ∈ s.zip e) :
+    p.1 ∈ interleave s e ∧ p.2 ∈ interleave s e := by
+  unfold interleave
+  constructor
+  · exact List.mem_flatMap.mpr ⟨p, hp, by simp⟩
+  · exact List.mem_flatMap.mpr ⟨p, hp, by simp⟩
+
+/-- every record of a built network refers to existing vertices -/
+theorem build_recs_lt (directed : Bool) (starts ends : List β) (weights : List ω) :
+    ∀ r ∈ (build directed starts ends weights).recs,
+      r.src < (build directed starts ends weights).labels.length ∧
+      r.dst < (build directed starts ends weights).labels.length := by
+  intro r hr
+  simp only [build, List.mem_map] at hr
+  obtain ⟨p, hp, rfl⟩ := hr
+  have hp' : p.1 ∈ starts.zip ends := by
+    have := List.mem_zipIdx hp
+    exact (List.mem_iff_getElem.mpr ⟨p.2 - 0, by omega, by simpa using this.2.2.symm⟩)
+  obtain ⟨h1, h2⟩ := mem_zip_interleave hp'
+  simp only [build]
+  exact ⟨List.idxOf_lt_length_iff.mpr (mem_firstApp.mpr h1), List.idxOf_lt_length_iff.mpr (mem_firstApp.mpr h2)⟩
+
+end build
+
+/-- a network all of whose records refer to vertices below `N` has all adjacency entries below `N` -/
+theorem out_lt_of_recs {β : Type} (n : Net β) (N : Nat) (h : ∀ r ∈ n.recs, r.src < N ∧ r.dst < N) (a i : Nat) :
+    ∀ j ∈ n.out a i, j < N := by
+  intro j hj
+  unfold Net.out at hj
+  obtain ⟨r, hr, hj⟩ := List.mem_flatMap.mp hj
+  rcases List.mem_append.mp hj with h1 | h1
+  · split at h1
+    · rw [(List.mem_replicate.mp h1).2]; exact (h r hr).2
+    · simp at h1
+  · split at h1
+    · rw [(List.mem_replicate.mp h1).2]; exact (h r hr).1
+    · simp at h1
+
+theorem inn_lt_of_recs {β : Type} (n : Net β) (N : Nat) (h : ∀ r ∈ n.recs, r.src < N ∧ r.dst < N) (a j : Nat) :
+    ∀ i ∈ n.inn a j, i < N := by
+  intro i hi
+  unfold Net.inn at hi
+  obtain ⟨r, hr, hi⟩ := List.mem_flatMap.mp hi
+  split at hi
+  · rw [(List.mem_replicate.mp hi).2]; exact (h r hr).1
+  · simp at hi
+
+/-- the tabulated view returns the network's adjacency lists, or nothing outside the table -/
+theorem view_out {β : Type} (n : Net β) (a i : Nat) :
+    n.view.out a i = if a < n.nL ∧ i < n.nV then n.out a i else [] := by
+  unfold Net.view
+  simp only [Array.getD_eq_getD_getElem?, List.getElem?_toArray, List.getElem?_map, List.getElem?_range]
+  by_cases ha : a < n.nL
+  · by_cases hi : i < n.nV
+    · simp [ha, hi, List.getElem?_range]
+    · simp [ha, hi, List.getElem?_eq_none]
+  · simp [ha, List.getElem?_eq_none]
+
+theorem view_out_lt {β : Type} (n : Net β) (N : Nat) (h : ∀ r ∈ n.recs, r.src < N ∧ r.dst < N) (a i : Nat) :
+    ∀ j ∈ n.view.out a i, j < N := by
+  rw [view_out]
+  split
+  · exact out_lt_of_recs n N h a i
+  · intro j hj; simp at hj
+
 /-- undirected networks: the view is determined by the adjacency lists -/
 theorem view_eq_of_out {β γ : Type} (n : Net β) (m : Net γ) (hd : n.directed = false)
     (hd' : m.directed = false) (hL : n.nL = m.nL) (hV : n.nV = m.nV) (ho : n.out = m.out) :
